@@ -177,6 +177,13 @@ def run(ctx):
     ctx.judge(sd, "TokenSeqTrace", "Judge_TokenSalt.cfg", seqevents, scenario_of=seq_by_id, timeout=1200,
               max_rejects=25 if ctx.thorough else 6)
     ctx.extra["provseq_traces"] = len(vlib.split_traces(seqevents))
+    # implementation-level observations, not in the statement: drift
+    nctx = sum(1 for e in seqevents if e["ev"] == "end" and not e["ctxsame"])
+    nloc = sum(1 for e in seqevents if e["ev"] == "deliver" and e["dest"] == "local" and any(o["foreign"] for o in e["obs"]))
+    if nctx:
+        ctx.drift.append("%d requests: the context's credentials were modified by serving a destination" % nctx)
+    if nloc:
+        ctx.drift.append("%d deliveries to the local cluster carried a token salted for a remote" % nloc)
     # third part: every routed API method of federation.Conn (FedRoute.tla); judged here is only what a remote sees
     # of the caller's token (FedRouteSaltTrace); the routing itself is judged, as drift, under checks/C20.py
     nroute = C20_route.salt_part(ctx)
@@ -241,8 +248,14 @@ def run(ctx):
         ctx.judge(sd, "TokenSaltTrace", "Judge_TokenSalt.cfg", sample, scenario_of=by_id, timeout=600,
                   max_rejects=len(in_sample) + 1)
     if waived:
-        ctx.judge(sd, "TokenSaltTraceKF", "Judge_TokenSalt.cfg", waived, scenario_of=by_id, timeout=1800,
-                  max_rejects=10)
+        # whatever the waiver spec still rejects is a VIOLATION: its rejections are never matched against the
+        # known findings (those apply to the strict judge's rejections only)
+        saved_kf, ctx.kf = ctx.kf, []
+        try:
+            ctx.judge(sd, "TokenSaltTraceKF", "Judge_TokenSalt.cfg", waived, scenario_of=by_id, timeout=1800,
+                      max_rejects=10)
+        finally:
+            ctx.kf = saved_kf
     nontrivial = set()
     for t in traces:
         if len(t) >= 2:
